@@ -23,6 +23,6 @@ SPEC = dict(
 )
 
 MANIFEST = dict(
-    text="Bounded model checking of the sliced parser/filters.rs decoders against in-harness reference ENCODERS: decode(encode(x)) == x for ASCIIHex (payload <= 3 bytes, both digit cases, inserted white-space, end marker followed by an arbitrary byte, odd final digit), ASCII85 (every non-zero 32-bit full group, 'z', partial groups of 1-3 bytes, '<~' prefix, white-space), RunLength (literal + repeat run + EOD + trailing byte), PNG predictors 10-15 with every row-filter type on 2 rows for (Columns,Colors,BPC) in a stated grid incl. 16-bit and sub-byte depths, and TIFF predictor 2 (8-bit).",
+    text="Bounded model checking of the sliced parser/filters.rs decoders against in-harness reference ENCODERS: decode(encode(x)) == x for ASCIIHex (payload <= 3 bytes, both digit cases, inserted white-space, end marker followed by an arbitrary byte, odd final digit), ASCII85 (every non-zero 32-bit full group, 'z', partial groups of 1-3 bytes, '<~' prefix, white-space), RunLength (literal + repeat run + EOD + trailing byte), PNG predictors 10-15 with every row-filter type on 2 rows for (Columns,Colors,BPC) = (2,1,8), (2,2,8), (3,4,4) (thorough adds (1,3,8), (2,1,16), (8,1,1)), and TIFF predictor 2 (8-bit).",
     note="Trusted: Kani/CBMC, the reference encoders in harness/C07_filters.rs, array model of the HashMap inside PdfDictionary, alloc::fmt::format stubbed (messages never inspected). Outside: Flate/CCITT/DCT/JBIG2/LZW, filter chains, longer payloads.",
 )
